@@ -24,6 +24,10 @@ type NodeShape struct {
 	Fn        *ssa.Function
 	Clause    string
 	SliceLen  int // for []T payloads built from a fixed-size literal
+	// a constructor helper: the node type / token payload is a parameter of Fn,
+	// resolved per call site (producers, builtNodes)
+	NodeTypeParam *ssa.Parameter
+	ValueParam    *ssa.Parameter
 }
 
 func (s *NodeShape) String() string {
@@ -210,12 +214,20 @@ func (c *Ctx) shapeOfEvent(ev *prodEvent) *NodeShape {
 			s.NodeType = c.A.NTName[k]
 		} else {
 			s.NodeType = "⊤"
+			if par, ok := vs[0].(*ssa.Parameter); ok {
+				s.NodeTypeParam = par
+			}
 		}
 	} else if len(vs) > 1 {
 		s.NodeType = "⊤"
 	}
 	if vs := fields[fValue]; len(vs) == 1 {
 		s.ValueType, s.ValueSet, s.SliceLen = c.payloadType(vs[0])
+		if mi, ok := vs[0].(*ssa.MakeInterface); ok {
+			if par, ok := mi.X.(*ssa.Parameter); ok && types.Identical(par.Type(), c.A.TokT) {
+				s.ValueParam = par
+			}
+		}
 	} else if len(vs) > 1 {
 		s.ValueType = "⊤"
 	}
@@ -361,6 +373,12 @@ func (c *Ctx) producers() []*NodeShape {
 				for _, ev := range evs {
 					s := c.shapeOfEvent(ev)
 					s.Fn = fn
+					if fn != c.A.Led && fn != c.A.Nud && (s.NodeTypeParam != nil || s.ValueParam != nil) {
+						if exp, ok := c.expandConstructor(s, fn); ok {
+							out = append(out, exp...)
+							continue
+						}
+					}
 					if cl := clauseAtPos(sw, ev.pos); cl != nil {
 						s.Clause = cl.Name()
 						// a tokType payload that is the led parameter ranges over the clause labels
@@ -378,6 +396,72 @@ func (c *Ctx) producers() []*NodeShape {
 	}
 	sort.SliceStable(out, func(i, j int) bool { return out[i].Pos < out[j].Pos })
 	return out
+}
+
+// expandConstructor: the shapes a parameterised constructor helper builds,
+// one per call site, with the node type / token payload taken from the
+// constant arguments (a token argument that is led's own parameter ranges
+// over the labels of the calling clause).
+func (c *Ctx) expandConstructor(s *NodeShape, fn *ssa.Function) ([]*NodeShape, bool) {
+	idx := func(p *ssa.Parameter) int {
+		for i, q := range fn.Params {
+			if q == p {
+				return i
+			}
+		}
+		return -1
+	}
+	var out []*NodeShape
+	for _, caller := range allFuncs(c.SLib) {
+		var sw *EnumSwitch
+		if caller == c.A.Led || caller == c.A.Nud {
+			sw, _ = c.switchLabels(caller, c.A.TokT)
+		}
+		for _, call := range callsTo(caller, fn) {
+			cp := *s
+			cp.Pos = call.Pos()
+			cp.Fn = caller
+			if cl := clauseAtPos(sw, call.Pos()); cl != nil {
+				cp.Clause = cl.Name()
+			}
+			if s.NodeTypeParam != nil {
+				i := idx(s.NodeTypeParam)
+				if i < 0 || i >= len(call.Call.Args) {
+					return nil, false
+				}
+				k, ok := constInt(call.Call.Args[i])
+				if !ok {
+					return nil, false
+				}
+				cp.NodeType = c.A.NTName[k]
+				cp.NodeTypeParam = nil
+			}
+			if s.ValueParam != nil {
+				i := idx(s.ValueParam)
+				if i < 0 || i >= len(call.Call.Args) {
+					return nil, false
+				}
+				arg := call.Call.Args[i]
+				if k, ok := constInt(arg); ok {
+					cp.ValueSet = []string{c.A.TokName[k]}
+				} else if _, isPar := arg.(*ssa.Parameter); isPar && caller == c.A.Led {
+					cl := clauseAtPos(sw, call.Pos())
+					if cl == nil {
+						return nil, false
+					}
+					cp.ValueSet = nil
+					for _, l := range cl.Labels {
+						cp.ValueSet = append(cp.ValueSet, l.Name)
+					}
+				} else {
+					return nil, false
+				}
+				cp.ValueParam = nil
+			}
+			out = append(out, &cp)
+		}
+	}
+	return out, len(out) > 0
 }
 
 func (c *Ctx) producersByType() map[string][]*NodeShape {
